@@ -161,9 +161,9 @@ impl Check for Handshake {
     }
     fn runs(&self, tier: Tier) -> u64 {
         if tier == Tier::Quick {
-            2_000
+            40000
         } else {
-            200_000
+            400000
         }
     }
     fn components(&self) -> serde_json::Value {
